@@ -629,7 +629,11 @@ fn c15_case(req: &str) -> Case {
             let want = match eff { None => "C".to_string(), Some(ip) => if reference.as_mut().is_none_or(|r| r.enqueue(ip)) { format!("S{}", id_of(ip)) } else { "R".to_string() } };
             let seen_before = seen_log.lock().unwrap().len();
             if via_app { tokio::time::sleep(Duration::from_millis(60)).await; }
-            let mut c = Cli::connect(port, Some(peer_ip)).await.expect("connect");
+            let Ok(mut c) = Cli::connect(port, Some(peer_ip)).await else {
+                why.push(format!("connection {k}: could not connect at all (the listener is gone)"));
+                observed.push("X".to_string());
+                continue;
+            };
             c.phase = ClientPhase::Status;
             c.raw(&first).await;
             let got = match c.recv(Duration::from_millis(700)).await {
@@ -699,6 +703,17 @@ const SERVE_BOUND_MS: u64 = 1000;
 
 /// what a stalled client does before it goes silent
 async fn stall(port: u16, proxy: bool, stage: &str) -> Option<Cli> {
+    if stage == "rst-burst" {
+        // connect scanners / health checkers: connect and abort (RST) at once, some before the accept loop reaches them
+        for _ in 0..24 {
+            // from the hostile peer's own address (127.0.0.2), so it never spends the well-behaved client's budget
+            let Ok(s) = socket2::Socket::new(socket2::Domain::IPV4, socket2::Type::STREAM, None) else { continue };
+            let _ = s.bind(&SocketAddr::new(IpAddr::V4(Ipv4Addr::new(127, 0, 0, 2)), 0).into());
+            if s.connect(&SocketAddr::new(IpAddr::V4(Ipv4Addr::LOCALHOST), port).into()).is_ok() { let _ = s.set_linger(Some(Duration::from_secs(0))); }
+            drop(s);
+        }
+        return None;
+    }
     let mut c = Cli::connect(port, Some(Ipv4Addr::new(127, 0, 0, 2))).await.ok()?;
     let hdr = header_menu(0);
     match stage {
@@ -725,8 +740,11 @@ fn c16_case(req: &str) -> Case {
     let limiter = kvn(req, "limiter") == 1;
     let st = kvs(req, "stalled").unwrap();
     let stages: Vec<&str> = if st == "-" { vec![] } else { st.split(',').collect() };
+    // an idle gap longer than the connection timeout before the well-behaved client arrives (the others were reaped meanwhile)
+    let gap = kvs(req, "gap").and_then(|s| s.parse::<u64>().ok()).unwrap_or(0);
+    let timeout_ms = if gap > 0 { 1000 } else { 4000 };
     rt().block_on(async {
-        let srv = Srv::start(&SrvOpts { proxy: if proxy { Some((true, true)) } else { None }, limiter: if limiter { Some(2) } else { None }, timeout: Duration::from_secs(4), gated: true, ..Default::default() });
+        let srv = Srv::start(&SrvOpts { proxy: if proxy { Some((true, true)) } else { None }, limiter: if limiter { Some(2) } else { None }, timeout: Duration::from_millis(timeout_ms), gated: true, ..Default::default() });
         let mut held = vec![];
         for s in &stages { held.push(stall(srv.port, proxy, s).await); }
         tokio::time::sleep(Duration::from_millis(50)).await;
@@ -734,32 +752,35 @@ fn c16_case(req: &str) -> Case {
         let cpu0 = srv.cpu_ms();
         tokio::time::sleep(Duration::from_millis(300)).await;
         let burnt = srv.cpu_ms().saturating_sub(cpu0);
-        let mut w = Cli::connect(srv.port, Some(Ipv4Addr::new(127, 0, 0, 1))).await.expect("connect");
-        if proxy { w.raw(&header_menu(1)).await; }
-        let lat = w.status(Duration::from_millis(SERVE_BOUND_MS)).await;
+        if gap > 0 { tokio::time::sleep(Duration::from_millis(gap)).await; }
+        let (lat, refused) = match Cli::connect(srv.port, Some(Ipv4Addr::new(127, 0, 0, 1))).await {
+            Ok(mut w) => { if proxy { w.raw(&header_menu(1)).await; } (w.status(Duration::from_millis(SERVE_BOUND_MS)).await, false) }
+            Err(_) => (None, true),
+        };
         let observed = if lat.is_some() { "served" } else { "blocked" };
-        let mut oracle = if lat.is_some() { None } else { Some(format!("a well-behaved client got no status reply within {SERVE_BOUND_MS} ms while {} other connection(s) were stalled at [{st}]", stages.len())) };
+        let mut oracle = if lat.is_some() { None } else if refused { Some(format!("a well-behaved client could not even connect (the listener is gone) after other connection(s) did [{st}]")) }
+            else { Some(format!("a well-behaved client got no status reply within {SERVE_BOUND_MS} ms while {} other connection(s) were stalled at [{st}]", stages.len())) };
         if oracle.is_none() && burnt >= 200 { oracle = Some(format!("the server thread burnt {burnt} ms of CPU in a 300 ms window in which every connection was stalled at [{st}]: a stalled client keeps the server busy, delaying every other client in proportion to the number of such clients")); }
         srv.stop.cancel();
         drop(held);
         let model_stages: Vec<&str> = stages.iter().map(|s| if *s == "pre" || *s == "in" { *s } else { "post" }).collect();
-        let request = format!("c16.run proxy={} limiter={} stalled={} detail={st} latency_us={}", u8::from(proxy), u8::from(limiter), if model_stages.is_empty() { "-".to_string() } else { model_stages.join(",") }, lat.map_or(0, |d| d.as_micros()));
-        Case { request, observed: observed.into(), oracle, class: format!("proxy={} limiter={} stalled={}", u8::from(proxy), u8::from(limiter), if stages.is_empty() { "none".to_string() } else { let mut k: Vec<&str> = stages.clone(); k.sort_unstable(); k.dedup(); k.join("+") }) }
+        let request = format!("c16.run proxy={} limiter={} gap={gap} stalled={} detail={st} latency_us={}", u8::from(proxy), u8::from(limiter), if model_stages.is_empty() { "-".to_string() } else { model_stages.join(",") }, lat.map_or(0, |d| d.as_micros()));
+        Case { request, observed: observed.into(), oracle, class: format!("proxy={} limiter={} gap={} stalled={}", u8::from(proxy), u8::from(limiter), u8::from(gap > 0), if stages.is_empty() { "none".to_string() } else { let mut k: Vec<&str> = stages.clone(); k.sort_unstable(); k.dedup(); k.join("+") }) }
     })
 }
 
 pub fn run_c16(a: &Args) {
     let mut reqs: Vec<String> = read_corpus(&a.corpus).into_iter().filter(|l| l.starts_with("c16.")).map(|l| {
         // replay: `detail=` carries the concrete stages
-        match kvs(&l, "detail") { Some(d) => format!("c16.run proxy={} limiter={} stalled={d}", kvn(&l, "proxy"), kvn(&l, "limiter")), None => l }
+        match kvs(&l, "detail") { Some(d) => format!("c16.run proxy={} limiter={} gap={} stalled={d}", kvn(&l, "proxy"), kvn(&l, "limiter"), kvs(&l, "gap").unwrap_or_else(|| "0".into())), None => l }
     }).collect();
     let mut rng = Rng::new(a.seed);
     for _ in 0..a.cases {
         let proxy = rng.chance(2, 3);
-        let menu: Vec<&str> = if proxy { vec!["pre", "in", "accepted", "mid-frame", "mid-login", "enc", "no-keepalive", "junk", "half-closed"] } else { vec!["accepted", "mid-frame", "mid-login", "enc", "no-keepalive", "junk", "half-closed"] };
+        let menu: Vec<&str> = if proxy { vec!["pre", "in", "accepted", "mid-frame", "mid-login", "enc", "no-keepalive", "junk", "half-closed", "rst-burst"] } else { vec!["accepted", "mid-frame", "mid-login", "enc", "no-keepalive", "junk", "half-closed", "rst-burst"] };
         let k = rng.below(5) as usize;
         let st: Vec<&str> = (0..k).map(|_| *rng.pick(&menu)).collect();
-        reqs.push(format!("c16.run proxy={} limiter={} stalled={}", u8::from(proxy), u8::from(rng.chance(1, 2)), if st.is_empty() { "-".to_string() } else { st.join(",") }));
+        reqs.push(format!("c16.run proxy={} limiter={} gap={} stalled={}", u8::from(proxy), u8::from(rng.chance(1, 2)), if rng.chance(1, 6) { 1300 } else { 0 }, if st.is_empty() { "-".to_string() } else { st.join(",") }));
     }
     let cases = retry_failed(par_cases(a.seed, reqs.len(), |i, _| c16_case(&reqs[i])), &reqs, c16_case);
     write_cases(&a.out, &cases).expect("write cases");
